@@ -9,20 +9,20 @@ RULE = ("graph searches on the real core code (Dijkstra, A* with weight factors 
         "tables zero/exact/half/admissible/random-inadmissible; vertex- and edge-oriented; forward and reverse) on "
         "worlds inside the property's hypotheses (edge-local frontier = forbid sets, edge-local positive costs, no "
         "failing model, no limit): deterministic families first (forbidden bridge / parallel twin / first hop / last "
-        "hop, everything forbidden, two components, one-way streets, chains, relabelling, edge-oriented with a "
+        "hop, everything forbidden, two components, one-way streets, chains, relabelling, long hauls (edges summing to 2^20..1e9 cost units, then a zero-cost / sub-MIN_COST connector as the only way onward, then more vertices and a zero-cost 2-cycle: the clamped 1e-10 is absorbed by the f64 addition), edge-oriented with a "
         "forbidden edge between or on the query edges; extreme weight factors {0, 5e-324, 1e-300, 1e300, 1e308, f64::MAX} from the algorithm config and from the query's weight_factor field with non-zero heuristic tables, so that f-scores underflow or are all +infinity, on reachable and unreachable destinations; plus searchkit's boundary families: dead-end origin, isolated "
         "or neighbouring destination, self loops, parallel edges, one-way ring, destination edge adjacent to / "
         "reverse of / ending at the start of the origin edge), then EVERY digraph on <= 2 vertices (thorough: <= 3) "
         "with self loops, plus one with a parallel twin, x every ordered pair and every destination-less origin x both "
         "directions x both orientations (quick: algorithm rotating over the four, thorough: all four for vertex "
         "queries), then random sparse/disconnected digraphs (n 3..40, forced isolated vertex / unreachable part / "
-        "parallel edge / self loop) with random forbid sets (none, 1/8, 1/3, 1/2 of the edges). "
+        "parallel edge / self loop) with random forbid sets (none, 1/8, 1/3, 1/2 of the edges), one world in five with searchkit's LongHaul cost family (2^21..2^40, 0, 1e-12, 1). "
         "I vs M: status, route edge ids (destination; skipped when the model popped among equal priorities: TIE) or "
         "sorted tree vertex set and per-vertex state labels bit-exact (no destination). "
         "I vs S: the property evaluated in Coq from the exact-rational world independently of the search model: "
         "verified reachb decides Ok vs nopath, verified pwalkb judges the route (non-empty permitted walk origin -> "
         "destination; edge-oriented: origin edge :: permitted walk ++ [destination edge]), tree vertex set = reachable "
-        "set, labels = Bellman-Ford least costs accepted by the verified stability check. "
+        "set, labels = Bellman-Ford least costs accepted by the verified stability check (labels only when binary64 sums of the cost table are exact: positive multiples of 1/64 up to 2^21). "
         "Non-trivial = nopath outcome, destination-less tree of >= 2 vertices, or route of >= 2 edges; distinct by "
         "(world, query)")
 
@@ -71,14 +71,17 @@ def run_app_stream(chk):
 
 
 def fix_ties(r):
-    """with a destination the model prints TIE:<status> when its run popped among equal priorities (the crate's
-    choice is unspecified, the route may differ): only the status is compared for such a case; S still judges I"""
+    """the model prints TIE:<status> when its run popped among equal priorities and the answer may depend on the
+    crate's unspecified choice (the route of a destination query; the parents/state labels of a tree query whose cost
+    table has zero or clamped costs): only the status is compared for such a case; S still judges I"""
     M, I = r.model.get("M", {}), r.impl.get("I", {})
     k = 0
     for cid, m in list(M.items()):
         if m.startswith("TIE:") and cid in I:
             k += 1
-            if I[cid].split(" ")[0] == m[4:]:
+            # the I payload may be hashed (long label lists): the status is the first word of the case's impl_short
+            status = (r.cases.get(cid, {}).get("impl_short") or I[cid]).split(" ")[0]
+            if status == m[4:]:
                 M[cid] = I[cid]
     return k
 
